@@ -69,10 +69,10 @@ def currentFilename (filenameFormat datetime : Str) : Str :=
 
 /-- the configuration the router model (`Nsq.Model.ToFile`) runs with, for options `o` and the
 computed format `cff` -/
-def cfgOf (o : Opts) (cff : Str) (skipEmpty : Bool) (maxInFlight : Nat) : Nsq.Model.ToFile.Cfg :=
+def cfgOf (o : Opts) (cff : Str) (skipEmpty : Bool) (maxInFlight : Nat) (closeClears : Bool) : Nsq.Model.ToFile.Cfg :=
   { gzip := o.gzip, rotateSize := o.rotateSize.toNat, rotateInterval := o.rotateInterval,
     workDir := decide (o.workDir ≠ o.outputDir), skipEmpty := skipEmpty, maxInFlight := maxInFlight,
-    hasRev := contains cff tREV }
+    hasRev := contains cff tREV, closeClears := closeClears }
 
 /-! ### driver -/
 
